@@ -9,6 +9,7 @@ import (
 	"os"
 
 	"github.com/ipld/go-storethehash/store/types"
+	"github.com/ipld/go-storethehash/store/verifhook"
 )
 
 func upgradeIndex(ctx context.Context, name, headerPath string, maxFileSize uint32) error {
@@ -38,14 +39,17 @@ func upgradeIndex(ctx context.Context, name, headerPath string, maxFileSize uint
 		return err
 	}
 	inFile.Close()
+	verifhook.At("upgrade.index.chunked")
 
 	if err = writeHeader(headerPath, newHeader(bucketBits, maxFileSize)); err != nil {
 		return err
 	}
+	verifhook.At("upgrade.index.header_written")
 
 	if err = os.Remove(name); err != nil {
 		return err
 	}
+	verifhook.At("upgrade.index.old_removed")
 
 	log.Infow("Replaced old index with multiple files", "replaced", name, "files", fileNum+1)
 	log.Infof("Upgraded index from version 2 to %d", IndexVersion)
@@ -112,6 +116,7 @@ func chunkOldIndex(ctx context.Context, file *os.File, name string, fileSizeLimi
 				return 0, err
 			}
 			outFile.Close()
+			verifhook.At("upgrade.index.chunk_written")
 			if ctx.Err() != nil {
 				return 0, ctx.Err()
 			}
